@@ -262,13 +262,14 @@ def items_of(c, rng, shuffle=True):
 class Layout:
     """Random layout decisions. plain=True gives the canonical layout (two-space indentation, no comments)."""
 
-    def __init__(self, rng, plain=False, include_p=0.12, tag='0'):
+    def __init__(self, rng, plain=False, include_p=0.12, tag='0', allow_abs=True):
         self.rng = rng
         self.plain = plain
         self.include_p = 0 if plain else include_p
         self.files = {}
         self.nfile = 0
         self.inc_level = 0
+        self.allow_abs = allow_abs
         self.tag = tag
         self.eol = '\n' if plain or rng.random() < 0.8 else '\r\n'
 
@@ -352,7 +353,7 @@ class Layout:
     def new_path(self):
         self.nfile += 1
         r = self.rng.random()
-        if r < 0.6:
+        if r < 0.6 or (not self.allow_abs and r >= 0.8):
             return 'inc%d.conf' % self.nfile
         if r < 0.8:
             return 'conf.d/part %d.conf' % self.nfile
@@ -374,9 +375,10 @@ class Layout:
         return text
 
 
-def make_case(c, rng, plain=False, tag='0', include_p=0.12, shuffle=True):
-    """-> dict(main=text, files={path: text or None(dir)}, conf=c)"""
-    lay = Layout(rng, plain=plain, include_p=include_p, tag=tag)
+def make_case(c, rng, plain=False, tag='0', include_p=0.12, shuffle=True, allow_abs=True):
+    """-> dict(main=text, files={path: text or None(dir)}, filename). allow_abs=False for a base from which several cases
+    are derived: cases run in parallel processes and an absolute include path is a shared file."""
+    lay = Layout(rng, plain=plain, include_p=include_p, tag=tag, allow_abs=allow_abs)
     main = lay.render(items_of(c, rng, shuffle=shuffle and not plain))
     files = dict(lay.files)
     if c['set'].get('bl_file') is not None:
